@@ -200,6 +200,7 @@ def run(repo='/repo', tier='quick'):
         res.check(ok, 'C16.d', ff.name + ':sets-flag-only-for-refused-CONNECT', 'set only for a CONNECT answered with neither 2xx nor 407',
                   'the yield-at-end flag is set outside the refused-CONNECT arm', x['loc'])
     c16g(db, res)
+    c16h(db, res)
     res.assumptions.append('"no request byte skipped or parsed twice" is decided only as: the suspension/probe paths do not move the cursor; values are not tracked')
     if tier == 'thorough':
         from .. import typestate
@@ -242,3 +243,43 @@ def c16g(db, res):
                       'response_progress = %s on every path through this store' % L,
                       'the response parser goes back to the status-line state without response_progress = %s: the gate (progress <= %s) in REQ_CONNECT_WAIT_RESPONSE is released by an interim response' % (L, L), x['loc'])
     res.floor('C16.g', 'stores of the status-line state into out_state', n, 2)
+
+
+def c16h(db, res):
+    """The tunnel probe (and REQ_FINALIZE after a refused CONNECT) decide "plain HTTP follows" by htp_convert_method_to_number():
+    every method name of its table must actually be reachable - a guard in front of the comparisons (on the length, say)
+    that is false for one of the names turns a tunnelled request with that method into opaque tunnel bytes."""
+    res.rule('C16.h', 'every method name compared in htp_convert_method_to_number is reachable: on the path to the return for the name N, every numeric guard on the length of the method holds for strlen(N)')
+    f = db.get('htp_convert_method_to_number')
+    lenterms = {'bstr_len(method)', '(*method).len', '*method.len'}
+    for b, i, st in f.stmts():
+        for d in nodes(st, lambda y: y.get('k') == 'decl'):
+            for v in d['vars']:
+                if 'init' in v and ('len' in P.K(v['init'])) and 'method' in P.K(v['init']):
+                    lenterms.add(v['name'])
+    n, bad = 0, []
+    for atoms, events, end in P.enum_paths(f, (f.entry, -1), max_paths=5000):
+        if end[0] != 'return' or lit_name(P.ret_value(end[3])) in (None, 'HTP_M_UNKNOWN'):
+            continue
+        # the name compared on this path with == 0
+        names = []
+        for (l, op, r), bb in atoms:
+            if l.startswith('bstr_cmp_c(') and op == '==' and r == '0':
+                cnd = f.blocks[bb]['stmts'][-1]
+                for sl in nodes(cnd, lambda y: y.get('k') == 'str'):
+                    names.append(sl['v'])
+        if len(names) != 1:
+            continue
+        n += 1
+        L = len(names[0])
+        for (l, op, r), bb in atoms:
+            if (l in lenterms or l.replace(' ', '') in lenterms) and r.lstrip('-').isdigit():
+                v = int(r)
+                ok = {'<': L < v, '<=': L <= v, '>': L > v, '>=': L >= v, '==': L == v, '!=': L != v}[op]
+                if not ok:
+                    bad.append((names[0], '%s %s %s' % (l, op, r)))
+    for nm, g in bad:
+        res.violated('C16.h', 'method:%s:reachable' % nm, 'the comparison with "%s" (length %d) is only reached under %s, which is false for that name: the method is reported as unknown, and a tunnelled or pipelined request that uses it is not recognised as HTTP' % (nm, len(nm), g), f.loc)
+    if not bad:
+        res.holds('C16.h', 'method-table:reachable', 'all %d method names are reachable under the guards in front of their comparison' % n, f.loc)
+    res.floor('C16.h', 'method names compared', n, 20)
